@@ -8,8 +8,8 @@ EXTENDS PteraAbs, Json, IOUtils, TLCExt
 
 Traces == JsonDeserialize(IOEnv.TRACE_FILE)
 
-VARIABLES tid, l, acts, stack, loops, pend, lastret, lastfall, fails
-vars == <<tid, l, acts, stack, loops, pend, lastret, lastfall, fails>>
+VARIABLES tid, l, acts, stack, loops, pend, lastret, lastfall, fails, leaves
+vars == <<tid, l, acts, stack, loops, pend, lastret, lastfall, fails, leaves>>
 
 T == Traces[tid]
 NH == Len(T.handlers)
@@ -92,7 +92,14 @@ RECURSIVE ObserveStage(_, _, _, _)
 ObserveStage(S, step, b, h) ==
   IF h > NH THEN S
   ELSE LET H == T.handlers[h] IN
-       IF H.kind # "imm" \/ H.ovr.k # "none" THEN ObserveStage(S, step, b, h + 1)
+       IF H.kind = "tot" /\ HasFocus(H.sel)
+       THEN \* forced total: every embedding of this focus binding becomes a leaf of its outermost activation
+            LET F == FocusNode(H.sel)
+                trig == \E i \in DOMAIN F.caps : F.caps[i].tag = 1 /\ CapMatches(F.caps[i], b)
+                embs == IF trig THEN Emb(S.A, S.st, H.sel, 1, {}, <<>>) ELSE {}
+                new == SetToSeq({ [h |-> h, chain |-> [j \in DOMAIN e[1] |-> S.st[e[1][j]]], val |-> b.val] : e \in embs })
+            IN ObserveStage([S EXCEPT !.leaves = @ \o new], step, b, h + 1)
+       ELSE IF H.kind # "imm" \/ H.ovr.k # "none" THEN ObserveStage(S, step, b, h + 1)
        ELSE LET R == ImmRecs(S.A, S.st, H.sel, b)
                 S2 == Consume(S, h, R, IF step.why = "falloff" THEN "FallOffValue" ELSE "Deliveries", step)
             IN ObserveStage(S2, step, b, h + 1)
@@ -107,6 +114,12 @@ TotalStage(S, step, a, h) ==
   IF h > NH THEN S
   ELSE LET H == T.handlers[h] IN
        IF H.kind # "tot" THEN TotalStage(S, step, a, h + 1)
+       ELSE IF HasFocus(H.sel)
+       THEN LET mine == SelectSeq(S.leaves, LAMBDA x : x.h = h /\ x.chain[1] = a)
+                recs == { <<i, ForcedRec(S.A, H.sel, mine[i].chain, mine[i].val)>> : i \in DOMAIN mine }
+                R == { x \in recs : ForcedOK(H.sel, x[2]) }
+                S2 == Consume(S, h, R, IF TotalNested(S.A, H.sel, a) THEN "ForcedTotalNested" ELSE "ForcedTotal", step)
+            IN TotalStage([S2 EXCEPT !.leaves = SelectSeq(@, LAMBDA x : ~(x.h = h /\ x.chain[1] = a))], step, a, h + 1)
        ELSE LET R == { <<0, r>> : r \in TotalRecs(S.A, H.sel, a) }
                 S2 == Consume(S, h, R, "TotalRecord", step)
                 act == ActualOf(h)
@@ -162,7 +175,7 @@ CheckOrder(S) == IF OrderOK(S, 1, [h \in 1..NH |-> 0], 0) THEN S
 
 Process(A, st, steps) ==
   CheckOrder(Leftover(Run([A |-> A, st |-> st, ptr |-> [h \in 1..NH |-> 0], at |-> [h \in 1..NH |-> <<>>],
-                           si |-> 0, fails |-> fails], steps, 1), 1))
+                           si |-> 0, fails |-> fails, leaves |-> leaves], steps, 1), 1))
 
 LastVal(A, a, var) ==
   LET idx == {i \in DOMAIN A[a].binds : A[a].binds[i].var = var} IN
@@ -170,7 +183,7 @@ LastVal(A, a, var) ==
 
 \* ------------------------------------------------------------------ stepping
 Init == /\ tid \in 1..Len(Traces) /\ l = 1 /\ acts = <<>> /\ stack = <<>> /\ loops = <<>>
-        /\ pend = Decline /\ lastret = Decline /\ lastfall = FALSE /\ fails = <<>>
+        /\ pend = Decline /\ lastret = Decline /\ lastfall = FALSE /\ fails = <<>> /\ leaves = <<>>
         /\ TLCSet(tid, <<0, <<>>>>)
 
 AddFail(f, clause, why) == Append(f, [line |-> l, clause |-> clause, var |-> "", why |-> why, h |-> 0])
@@ -185,35 +198,35 @@ Step ==
                 A2 == Append(acts, a)
                 st2 == Append(stack, Len(A2))
                 S == Process(A2, st2, EntrySteps(E.fn, E.val))
-            IN /\ acts' = S.A /\ stack' = st2 /\ loops' = Append(loops, <<>>) /\ fails' = S.fails
+            IN /\ acts' = S.A /\ stack' = st2 /\ loops' = Append(loops, <<>>) /\ fails' = S.fails /\ leaves' = S.leaves
                /\ UNCHANGED <<pend, lastret, lastfall>>
        [] E.ev \in {"bind", "ann"} ->
             LET cats == IF E.ev = "ann" THEN ToSet(Facts(acts[Top(stack)].fn).ann[E.var]) ELSE {}
                 S == Process(acts, stack, << B(E.var, E.val, cats, TRUE, TRUE, "") >>)
-            IN acts' = S.A /\ fails' = S.fails /\ UNCHANGED <<stack, loops, pend, lastret, lastfall>>
+            IN acts' = S.A /\ fails' = S.fails /\ leaves' = S.leaves /\ UNCHANGED <<stack, loops, pend, lastret, lastfall>>
        [] E.ev = "aug" ->
             LET old == LastVal(acts, Top(stack), E.var)
                 S == Process(acts, stack, << B(E.var, old + E.val, {}, TRUE, TRUE, "") >>)
-            IN acts' = S.A /\ fails' = S.fails /\ UNCHANGED <<stack, loops, pend, lastret, lastfall>>
+            IN acts' = S.A /\ fails' = S.fails /\ leaves' = S.leaves /\ UNCHANGED <<stack, loops, pend, lastret, lastfall>>
        [] E.ev = "read" ->
             /\ pend' = LastVal(acts, Top(stack), E.var) /\ fails' = NoDlv(fails)
-            /\ UNCHANGED <<acts, stack, loops, lastret, lastfall>>
+            /\ UNCHANGED <<acts, stack, loops, lastret, lastfall, leaves>>
        [] E.ev = "seen" ->
             /\ fails' = NoDlv(IF E.val = pend THEN fails ELSE AddFail(fails, "DataFlow", ""))
-            /\ UNCHANGED <<acts, stack, loops, pend, lastret, lastfall>>
+            /\ UNCHANGED <<acts, stack, loops, pend, lastret, lastfall, leaves>>
        [] E.ev \in {"loop", "sloop"} ->
             /\ loops' = [loops EXCEPT ![Len(loops)] = Append(@, [var |-> IF E.ev = "loop" THEN "i" ELSE E.var, st |-> 1])]
             /\ fails' = NoDlv(fails)
-            /\ UNCHANGED <<acts, stack, pend, lastret, lastfall>>
+            /\ UNCHANGED <<acts, stack, pend, lastret, lastfall, leaves>>
        [] E.ev = "iter" ->
             LET ls == loops[Len(loops)]  lp == ls[Len(ls)]
                 S == Process(acts, stack, << B("#loop_" \o lp.var, TrueV, {}, FALSE, FALSE, ""), B(lp.var, E.val, {}, TRUE, TRUE, "") >>)
-            IN /\ acts' = S.A /\ fails' = S.fails /\ loops' = [loops EXCEPT ![Len(loops)][Len(ls)].st = 2]
+            IN /\ acts' = S.A /\ fails' = S.fails /\ leaves' = S.leaves /\ loops' = [loops EXCEPT ![Len(loops)][Len(ls)].st = 2]
                /\ UNCHANGED <<stack, pend, lastret, lastfall>>
        [] E.ev \in {"next", "cont", "brk"} ->
             LET ls == loops[Len(loops)]  lp == ls[Len(ls)]
                 S == Process(acts, stack, EndOne(lp))
-            IN /\ acts' = S.A /\ fails' = S.fails
+            IN /\ acts' = S.A /\ fails' = S.fails /\ leaves' = S.leaves
                /\ loops' = [loops EXCEPT ![Len(loops)] = IF E.ev = "brk" THEN SubSeq(ls, 1, Len(ls) - 1) ELSE [ls EXCEPT ![Len(ls)].st = 1]]
                /\ UNCHANGED <<stack, pend, lastret, lastfall>>
        [] E.ev = "stop" ->
@@ -223,7 +236,7 @@ Step ==
                 rest == SubSeq(ls, 1, Len(ls) - 1)
                 outerEnds == lp.var = "j" /\ rest # <<>>
                 S == Process(acts, stack, IF outerEnds THEN EndOne(rest[Len(rest)]) ELSE <<>>)
-            IN /\ acts' = S.A /\ fails' = S.fails
+            IN /\ acts' = S.A /\ fails' = S.fails /\ leaves' = S.leaves
                /\ loops' = [loops EXCEPT ![Len(loops)] = IF outerEnds THEN [rest EXCEPT ![Len(rest)].st = 1] ELSE rest]
                /\ UNCHANGED <<stack, pend, lastret, lastfall>>
        [] E.ev \in {"sval", "slast"} ->
@@ -237,7 +250,7 @@ Step ==
                          (IF depth = 2 THEN EndOne(ls[2]) ELSE <<>>) \o
                          (IF E.ev = "slast" THEN << B("#value", NoneV, {}, FALSE, TRUE, "falloff"), B("#exit", TrueV, {"exit"}, TRUE, FALSE, ""), X >> ELSE <<>>)
                 S == Process(acts, stack, steps)
-            IN /\ acts' = S.A /\ fails' = S.fails
+            IN /\ acts' = S.A /\ fails' = S.fails /\ leaves' = S.leaves
                /\ IF E.ev = "slast"
                   THEN /\ stack' = SubSeq(stack, 1, Len(stack) - 1) /\ loops' = SubSeq(loops, 1, Len(loops) - 1)
                        /\ lastret' = LastVal(S.A, a, "#value") /\ lastfall' = TRUE
@@ -250,24 +263,24 @@ Step ==
                                          ELSE B("#value", NoneV, {}, FALSE, TRUE, "falloff")
                 S == Process(acts, stack, <<first>> \o EndLoop(loops[Len(loops)])
                                           \o << B("#exit", TrueV, {"exit"}, TRUE, FALSE, ""), X >>)
-            IN /\ acts' = S.A /\ fails' = S.fails
+            IN /\ acts' = S.A /\ fails' = S.fails /\ leaves' = S.leaves
                /\ stack' = SubSeq(stack, 1, Len(stack) - 1) /\ loops' = SubSeq(loops, 1, Len(loops) - 1)
                /\ lastret' = LastVal(S.A, a, "#value") /\ lastfall' = (E.ev = "end")
                /\ UNCHANGED pend
        [] E.ev \in {"raise", "sraise"} ->
             LET n == RaisePopCount(acts, stack)
                 S == Process(acts, stack, RaiseSteps(SubSeq(loops, Len(loops) - n + 1, Len(loops)), n, E.val))
-            IN /\ acts' = S.A /\ fails' = S.fails
+            IN /\ acts' = S.A /\ fails' = S.fails /\ leaves' = S.leaves
                /\ stack' = SubSeq(stack, 1, Len(stack) - n) /\ loops' = SubSeq(loops, 1, Len(loops) - n)
                /\ UNCHANGED <<pend, lastret, lastfall>>
        [] E.ev = "result" ->
             /\ fails' = NoDlv(IF E.val = lastret THEN fails
                               ELSE AddFail(fails, IF lastfall THEN "FallOffValue" ELSE "Result", ""))
-            /\ UNCHANGED <<acts, stack, loops, pend, lastret, lastfall>>
+            /\ UNCHANGED <<acts, stack, loops, pend, lastret, lastfall, leaves>>
        [] E.ev = "caught" ->
-            /\ fails' = NoDlv(fails) /\ UNCHANGED <<acts, stack, loops, pend, lastret, lastfall>>
+            /\ fails' = NoDlv(fails) /\ UNCHANGED <<acts, stack, loops, pend, lastret, lastfall, leaves>>
        [] OTHER ->
-            /\ fails' = AddFail(fails, "EscapedError", "") /\ UNCHANGED <<acts, stack, loops, pend, lastret, lastfall>>
+            /\ fails' = AddFail(fails, "EscapedError", "") /\ UNCHANGED <<acts, stack, loops, pend, lastret, lastfall, leaves>>
 
 Spec == Init /\ [][Step]_vars
 
